@@ -501,6 +501,51 @@ fn encode(run: &Run, thorough: bool, acc: &mut Acc) {
     });
     let t = std::mem::take(acc);
     *acc = t.merge(part);
+    // word lengths just past the usual buffer sizes: single-parity-check codes with k = 8193 .. 65537
+    // (thorough 131073), two complete words and a trailing byte
+    {
+        let ks: Vec<usize> = if thorough { vec![4097, 8193, 16385, 32769, 65535, 65536, 65537, 131073] } else { vec![8193, 16385, 32769, 65537] };
+        let part = par_items(&ks, |&k, acc| {
+            let n = k + 1;
+            let mut h = SparseMatrix::new(1, n);
+            for j in 0..n {
+                h.insert(0, j);
+            }
+            let apath = tmp(run, &format!("enc_spc{}.alist", k));
+            let ipath = tmp(run, &format!("enc_spc{}.in", k));
+            let opath = tmp(run, &format!("enc_spc{}.out", k));
+            std::fs::write(&apath, h.alist()).unwrap();
+            let input: Vec<u8> = (0..2 * k + 1).map(|i| u8::from((i * i + i / 5) % 3 == 0)).collect();
+            std::fs::write(&ipath, &input).unwrap();
+            let _ = std::fs::remove_file(&opath);
+            let a = sargs(&["encode", apath.to_str().unwrap(), ipath.to_str().unwrap(), opath.to_str().unwrap()]);
+            let mut want: Vec<u8> = Vec::new();
+            for w in 0..2 {
+                let msg = &input[w * k..(w + 1) * k];
+                want.extend_from_slice(msg);
+                want.push(msg.iter().fold(0u8, |p, &b| p ^ b));
+            }
+            acc.evals += 1;
+            acc.nontrivial += 1;
+            let o = run_cli(&a, 120);
+            let key = format!("cli:encode:single-parity-check-k{}", k);
+            let replay = json!({"kind": "cli", "args": a, "input_bytes": input.len()});
+            match (o.status, std::fs::read(&opath)) {
+                (Some(0), Ok(g)) => {
+                    if g != want {
+                        let pos = g.iter().zip(want.iter()).position(|(x, y)| x != y);
+                        acc.violate(key, format!("output file has {} bytes, the codewords of the 2 complete input words are {} bytes (first differing byte {:?})", g.len(), want.len(), pos), replay);
+                    }
+                }
+                (st, g) => acc.violate(key, format!("status {:?}, output file readable: {}, stderr {:?}", st, g.is_ok(), o.stderr.trim()), replay),
+            }
+            for p in [apath, ipath, opath] {
+                let _ = std::fs::remove_file(p);
+            }
+        });
+        let t = std::mem::take(acc);
+        *acc = t.merge(part);
+    }
     // invalid invocations
     let (_, m) = &codes[1];
     let apath = tmp(run, "enc_bad.alist");
@@ -718,7 +763,7 @@ pub fn run(run: &Run) -> i32 {
         run,
         acc,
         Coverage {
-            rule: "real binary built from the working tree with the verification guard off; dvbs2: all 11 rates x --short (21 valid + the invalid 9/10 short) with stdout compared to Code::h() by digest and text, --girth for the two rate-1/2 codes (thorough: all), expected girths from the harness's own reference, not from the library, invalid rates/flags; ccsds: 4 rate strings x 4 block sizes (k = 16384 only 4/5 in quick), girth, ccsds-c2; mackay-neal and peg: a grid of (rows, cols, weights, uniform, min girth, search) x 3 seeds against the library result for that seed (for --search the seed printed on stderr); systematic: every 2x4 matrix and a slice (thorough: all) of 3x4 and 3x3 matrices as files, rank-deficient ones must give the error text; encode: 3 codes x every puncturing pattern up to length 4 (6; 9 for the 3x9 code, which contains the smallest pattern whose rate is inexact in binary) x 0..2 complete words x 0/1/k-1 trailing bytes x byte-value fills, plus inputs just above 8192 and 65536 bytes (thorough: also 4096, 16384, 131072) for every code with and without a pattern; ber: 4 Eb/N0 grids x BPSK/8PSK x outer-code threshold x decoders, result-file lines checked against the statistics identities, plus one run whose points last longer than the 500 ms report interval (the file must hold the final statistics); plus invalid invocations for every subcommand (non-zero status, message, no panic text). Every invocation under a 60-300 s watchdog. Each invocation is a distinct non-trivial case.".into(),
+            rule: "real binary built from the working tree with the verification guard off; dvbs2: all 11 rates x --short (21 valid + the invalid 9/10 short) with stdout compared to Code::h() by digest and text, --girth for the two rate-1/2 codes (thorough: all), expected girths from the harness's own reference, not from the library, invalid rates/flags; ccsds: 4 rate strings x 4 block sizes (k = 16384 only 4/5 in quick), girth, ccsds-c2; mackay-neal and peg: a grid of (rows, cols, weights, uniform, min girth, search) x 3 seeds against the library result for that seed (for --search the seed printed on stderr); systematic: every 2x4 matrix and a slice (thorough: all) of 3x4 and 3x3 matrices as files, rank-deficient ones must give the error text; encode: 3 codes x every puncturing pattern up to length 4 (6; 9 for the 3x9 code, which contains the smallest pattern whose rate is inexact in binary) x 0..2 complete words x 0/1/k-1 trailing bytes x byte-value fills, plus inputs just above 8192 and 65536 bytes (thorough: also 4096, 16384, 131072) for every code with and without a pattern, and single-parity-check codes with k = 8193, 16385, 32769, 65537 (two words and a trailing byte); ber: 4 Eb/N0 grids x BPSK/8PSK x outer-code threshold x decoders, result-file lines checked against the statistics identities, plus one run whose points last longer than the 500 ms report interval (the file must hold the final statistics); plus invalid invocations for every subcommand (non-zero status, message, no panic text). Every invocation under a 60-300 s watchdog. Each invocation is a distinct non-trivial case.".into(),
             exhaustive: true,
             extra: timing,
             graph: None,
